@@ -108,12 +108,15 @@ def leak_context(script, obs):
     return "+".join(parts)
 
 
-def check_script(script, rec, do_valgrind):
-    wit = {"script": script}
+def check_script(script, rec, do_valgrind, instrument=False):
+    wit = {"script": script, "instrument": instrument}
+    if instrument:
+        rec.count("programs_generated_with_profiling_instrumentation")
     try:
         with case_alarm(240):
             obs = ftn.execute(script, env={"ASAN_OPTIONS": "detect_leaks=1:halt_on_error=1:abort_on_error=0:"
-                                                           "exitcode=23:atexit=1:print_stats=1"})
+                                                           "exitcode=23:atexit=1:print_stats=1"},
+                              instrument=instrument)
     except CaseTimeout:
         rec.timeout()
         return None
@@ -201,7 +204,10 @@ def run_shard(shard, rec):
         g = ftn.FGen(rng, memory_bias=True, two_types=rng.random() < 0.4, max_ops=12,
                      struct_type=rng.random() < 0.3)
         script = g.script()
-        ok = check_script(script, rec, shard["valgrind_every"] and i % shard["valgrind_every"] == 0)
+        # every fourth module is generated with the profiling instrumentation switched on (another configuration
+        # of the same generator: its own exit paths and timers around every phase)
+        ok = check_script(script, rec, shard["valgrind_every"] and i % shard["valgrind_every"] == 0,
+                          instrument=(i % 4 == 3))
         f = features(script)
         nt = ok is not None and len(f["uts"]) >= 2 and (f["guarded_ut"] or f["ends"] or f["moves"])
         rec.case(script, nontrivial=bool(nt), sample={"features": {k: (sorted(v) if isinstance(v, set) else v)
@@ -209,5 +215,5 @@ def run_shard(shard, rec):
 
 
 def replay(witness, rec):
-    check_script(witness["script"], rec, True)
+    check_script(witness["script"], rec, True, instrument=bool(witness.get("instrument")))
     rec.case(witness["script"])
